@@ -21,6 +21,7 @@ UNITS = {
     'ingest': {'template': 'units/ingest/unit.rs', 'serves': ['C12', 'C13', 'C16'], 'min_verified': 10},
     'sampler': {'template': 'units/sampler/unit.rs', 'serves': ['C17'], 'min_verified': 36},
     'engine': {'template': 'units/engine/unit.rs', 'serves': ['C20'], 'min_verified': 18},
+    'vshreds': {'template': 'units/vshreds/unit.rs', 'serves': ['C11', 'C10'], 'min_verified': 10},
     'slot_state': {'template': 'units/slot_state/unit.rs', 'serves': ['C03', 'C04', 'C06'], 'min_verified': 93},
 }
 
